@@ -41,6 +41,16 @@ func voucherOnBViaLink1() []ksim.Op {
 	return append([]ksim.Op{xfer(0, 1, RV1, 0, stakeOf(0), 1, RcvUser0, ToFar)}, deliver(0, 0, 1)...)
 }
 
+// vouchersOnBViaLink1: like vouchersOnB but over the second link (v1 channel and client route).
+func vouchersOnBViaLink1() []ksim.Op {
+	var ops []ksim.Op
+	ops = append(ops, xfer(0, 1, RV1, 0, stakeOf(0), 1, RcvUser0, ToFar))
+	ops = append(ops, deliver(0, 0, 1)...)
+	ops = append(ops, xfer(0, 1, RClient, 1, stakeOf(0), 0, RcvUser0, ToFar))
+	ops = append(ops, deliver(1, 0, 1)...)
+	return ops
+}
+
 // Parts builds the explorations shared by C30, C31, C32 and C49; arm selects the reporting oracle.
 func Parts(c *core.C, arm Arm) []ksim.Part {
 	d := core.Pick(c, 0, 2)
@@ -67,6 +77,11 @@ func Parts(c *core.C, arm Arm) []ksim.Part {
 		// (B is source zone there: the voucher is escrowed); A refuses it
 		mk("2c/macro/two-links/voucher-over-other-link-refused", 5+d, 0.35, &TW{Topo: twoLinks, Sync: true, Prefix: voucherOnBViaLink1(), SkipPrefix: true, SendFrom: []int{1}, Links: []int{0}, Kind: 2,
 			Routes: []int{RV1, RAlias, RClient}, Receivers: []int{RcvBlocked, RcvUser0}, Timeouts: []int{ToFar}, MaxPkts: 1, MaxCommits: 1, NoTimeout: true, Relayer: 1}),
+		// chain B's identifiers of the two links are string prefixes of each other (07-tendermint-1 / channel-1 and
+		// 07-tendermint-10 / channel-10): B holds vouchers that arrived over the second link (channel and client route) and
+		// sends them onward over the first link, where they are refused (blocked receiver) or time out
+		mk("2c/macro/prefix-related-ids/voucher-onward-fails", 5+d, 0.35, &TW{Topo: twoLinks, PrefixIDs: true, Sync: true, Prefix: vouchersOnBViaLink1(), SkipPrefix: true, SendFrom: []int{1}, Links: []int{0}, Kind: 2,
+			Routes: []int{RV1, RAlias, RClient}, Receivers: []int{RcvBlocked}, Timeouts: []int{ToNext}, MaxPkts: 1, MaxCommits: 1, Relayer: 1}),
 		// MsgSendPacket whose signer is not the payload's sender, next to the matching sends of both users
 		mk("2c/macro/signer-mismatch", 4+d, 0.3, &TW{Sync: true, Mismatch: true, Senders: []int{0, 1}, SendFrom: []int{0}, Routes: []int{RAlias, RClient, RMsgAlias}, Receivers: []int{RcvUser1}, Timeouts: []int{ToFar},
 			MaxPkts: 2, MaxCommits: 1, Relayer: 1}),
